@@ -158,7 +158,20 @@ func genCost(r *rand.Rand, n int, c *OptCase, allowNeg bool) {
 	}
 }
 
+// genC03 is the generator shared with C14opt, C18, C19, C20 and the C16 mix: those runners render or install the cost
+// function themselves, once, so the "replaced cost function" route stays with C03 (genC03Decoy).
 func genC03(r *rand.Rand, idx int, tier string) *OptCase {
+	c := genC03Decoy(r, idx, tier)
+	if c.Decoy {
+		c.Decoy, c.DecoyLits, c.DecoyWs = false, nil, nil
+		if c.P.Front == "opb" {
+			c.NilWs = false
+		}
+	}
+	return c
+}
+
+func genC03Decoy(r *rand.Rand, idx int, tier string) *OptCase {
 	nmax := 9
 	if tier == "thorough" {
 		nmax = 13
